@@ -55,9 +55,9 @@ def prefork():
 
 
 def cases(tier, seed):
-    out = [(t, cfg, seed, 'fresh') for cfg in CONFIGS for t in _tables(tier)]
+    out = [(t, cfg, seed, 'fresh', tier) for cfg in CONFIGS for t in _tables(tier)]
     # E2 layer: the same object was fitted, queried (pdf, cdf, log pdf) on a differently dependent table, then re-fitted
-    out += [(t, 'gaussian-class', seed, 'refit') for t in _tables(tier)]
+    out += [(t, 'gaussian-class', seed, 'refit', tier) for t in _tables(tier)]
     out.sort(key=lambda c: (c[1] != 'default', -c[0][0]))
     return out
 
@@ -71,7 +71,8 @@ def ref_scores(gm, cols, X):
 
 
 def run_case(case):
-    t, cfg, seed, hist = case
+    t, cfg, seed, hist = case[:4]
+    tier = case[4] if len(case) > 4 else 'quick'
     r = engine.new_result()
     r.state((t, cfg, hist))
     r.nontriv()
@@ -176,6 +177,21 @@ def run_case(case):
     r.ev(m * (k + 1))
     if not (np.allclose(rev, p0, rtol=1e-8, atol=0) and np.allclose(tiled[-1], p0, rtol=1e-8, atol=0)):
         r.violation('C13:batch-dependence', f'{tag}: pdf of a row depends on the other rows of the batch', case=case)
+
+    # long batches whose length is not a multiple of any plausible block size (rows must not be processed in chunks that
+    # drop or misplace a tail)
+    for L in ((2350,) if tier == 'quick' else (2350, 10001, 70001)):
+        idx = np.arange(L) % m
+        long_df = base_df.iloc[idx].reset_index(drop=True)
+        for name, obj in (('DataFrame', long_df), ('ndarray', long_df.to_numpy().copy())):
+            got = pdf_of(obj)
+            r.ev(L)
+            if got.shape != (L,) or not np.allclose(got, p0[idx], rtol=1e-8, atol=0):
+                j = int(np.nonzero(~np.isclose(got, p0[idx], rtol=1e-8, atol=0))[0][0]) if got.shape == (L,) else -1
+                r.violation(f'C13:batch-dependence:long-batch', f'{tag}: in a {name} batch of {L} rows, row {j} has pdf '
+                            f'{got[j] if j >= 0 else got.shape!r} but {p0[idx][j] if j >= 0 else (L,)!r} in a batch of {m}',
+                            case=case)
+                break
 
     # ---- CDF -------------------------------------------------------------------------------------------------
     def cdf_of(obj):
